@@ -41,6 +41,9 @@ STRESS = [
     # many features with small variances: the product of the variances underflows, the sum of their logarithms does not
     dict(mu=[[0.25 * d for d in range(30)], [1.0 - 0.125 * d for d in range(30)]], var=[[2.0**-40] * 30, [2.0**-36] * 30], w=[0.25, 0.75]),
     dict(mu=[[float(d % 3) for d in range(200)]], var=[[2.0**-7] * 200], w=[1.0]),
+    # a feature in very small units: variances below machine epsilon, floors lowered below them
+    dict(mu=[[3e-9, 1.0], [-2e-9, 2.0]], var=[[1e-18, 1.0], [4e-18, 0.25]], w=[0.375, 0.625], thr=1e-30),
+    dict(mu=[[2.0**-40], [3 * 2.0**-40]], var=[[2.0**-80], [2.0**-78]], w=[0.5, 0.5], thr=2.0**-100),
 ]
 
 
@@ -90,7 +93,9 @@ def build(case):
         mu = np.array([[MU[(case["i"] + c + 2 * d) % 5] for d in range(D)] for c in range(C)]) * s + o
         var = np.array([[VAR[(case["j"] + 2 * c + d) % 5] for d in range(D)] for c in range(C)]) * s * s
     fl = case["floor"]
-    if fl == "default":
+    if fl == "default" and "stress" in case and "thr" in STRESS[case["stress"]]:
+        floor = STRESS[case["stress"]]["thr"] * s * s
+    elif fl == "default":
         floor = None
     elif fl == "scalar":
         floor = 0.5 * s * s
@@ -137,6 +142,22 @@ def run_case(case):
     want_vis = np.maximum(var, floor if floor is not None else np.finfo(float).eps)
     c.close(vis, np.broadcast_to(want_vis, vis.shape), "visible_variances", "variances after floor", tags, rtol=1e-15)
     w = np.array(m.weights, dtype=float)
+    if case.get("j", 0) % 2 == 0:
+        # history: assignments of unusual weight vectors, each taken back (if it was accepted) or caught (if it was refused);
+        # either way the machine must afterwards score with the weights it shows
+        import warnings
+
+        for bad in (np.where(np.arange(C) == 0, 0.0, w), -w, np.full(C, np.nan), np.full(C, np.inf)):
+            try:
+                with warnings.catch_warnings():
+                    warnings.simplefilter("ignore")
+                    m.weights = bad
+            except Exception:  # noqa: BLE001
+                pass
+            else:
+                m.weights = w.copy()
+        c.check(np.array_equal(np.array(m.weights, dtype=float), w), "refused_or_restored", "weights shown after refused / taken-back assignments", tags)
+        c.transitions += 4
     X = _samples(D, s, o) if "stress" not in case else None
     if "stress" in case:
         sd = np.sqrt(vis)
